@@ -427,7 +427,7 @@ class DNSIncoming:
                     f"DNS compression pointer at {off} was seen again from {self.source}"
                 )
             linked_labels = self._name_cache.get(link_py_int)
-            if not linked_labels:
+            if linked_labels is None:
                 linked_labels = []
                 seen_pointers.add(link_py_int)
                 if len(seen_pointers) > MAX_DNS_LABELS:
